@@ -101,6 +101,8 @@ def pstmts(stmts, o, ind, depth=0):
             out.append(pad + "vsc.solve_order([%s], [%s])" % (
                 ", ".join(ppath(p, o) for p in s["before"]),
                 ", ".join(ppath(p, o) for p in s["after"])))
+        elif t == "raise":
+            out.append(pad + "raise RuntimeError('user code fails here')")
         else:
             out.append(pad + "# <%s>" % t)
     return out
